@@ -608,6 +608,11 @@ impl TwistPoint {
             return self.clone();
         }
 
+        // the formula below is a mixed addition: it is only valid for an affine rhs (z2 = 1)
+        if z2 != Fp2::one() {
+            return twist_point_add_full(self, rhs);
+        }
+
         let mut t1 = z1.fp_sqr();
         let mut t2 = t1.fp_mul(&z1);
 
